@@ -172,7 +172,7 @@ fn miri_leg(thorough: bool, _seed: u64, m: &mut Merged) -> Vec<Value> {
             Ok(o) => {
                 let err = String::from_utf8_lossy(&o.stderr).to_string();
                 let tried = err.matches("Trying seed").count();
-                if !o.status.success() && tried == 0 && !err.contains("MIRI-LEG MISMATCH") && !err.contains("Undefined Behavior") {
+                if !o.status.success() && tried == 0 && !err.contains("MIRI-LEG MISMATCH") && !err.contains("Data race detected") {
                     // the tool itself could not run (not installed / cannot build)
                     let tail: String = err.lines().rev().take(3).collect::<Vec<_>>().join(" | ");
                     out.push(json!({"leg": "miri", "status": format!("unavailable: {}", tail)}));
@@ -180,17 +180,27 @@ fn miri_leg(thorough: bool, _seed: u64, m: &mut Merged) -> Vec<Value> {
                 }
                 *m.stats.entry("miri_seeds_executed".into()).or_insert(0) += tried as u64;
                 out.push(json!({"leg": "miri", "case": case, "seeds": nseeds, "seeds_started": tried, "ok": o.status.success()}));
+                let race = err.contains("Data race detected");
+                let mismatch = err.contains("MIRI-LEG MISMATCH");
+                if !o.status.success() && !race && !mismatch {
+                    // Miri stopped for a reason that is not C17's business (e.g. an
+                    // aliasing-model complaint inside a dependency, an unsupported
+                    // operation): reported, never a verdict
+                    let tail: String = err.lines().filter(|l| l.contains("error")).take(2).collect::<Vec<_>>().join(" | ");
+                    out.push(json!({"leg": "miri", "case": case, "status": format!("miri stopped, not judged: {}", tail)}));
+                    continue;
+                }
                 if !o.status.success() {
                     let fs = err
                         .lines()
                         .find_map(|l| l.find("FAILING SEED:").map(|i| l[i + 13..].trim().to_string()))
                         .and_then(|x| x.parse::<u64>().ok());
-                    let what = if err.contains("Undefined Behavior") {
-                        err.lines().find(|l| l.contains("Undefined Behavior")).unwrap_or("").to_string()
+                    let what = if race {
+                        err.lines().find(|l| l.contains("Data race detected")).unwrap_or("").to_string()
                     } else {
                         err.lines().find(|l| l.contains("MIRI-LEG MISMATCH")).unwrap_or("caller results differ").to_string()
                     };
-                    let class = if err.contains("Undefined Behavior") { "miri-data-race-or-ub" } else { "concurrent-callers-differ-under-miri-schedule" };
+                    let class = if race { "data-race-between-concurrent-callers" } else { "concurrent-callers-differ-under-miri-schedule" };
                     *m.found_per_class.entry(class.into()).or_insert(0) += 1;
                     m.found_total += 1;
                     m.found.push((
@@ -571,10 +581,15 @@ pub fn replay(props: &[&dyn Property], path: &str) -> i32 {
             .stdin(Stdio::null())
             .output();
         return match o {
-            Ok(o) if !o.status.success() => {
+            Ok(o)
+                if !o.status.success() && {
+                    let e = String::from_utf8_lossy(&o.stderr);
+                    e.contains("MIRI-LEG MISMATCH") || e.contains("Data race detected")
+                } =>
+            {
                 crate::say!("VIOLATION property={} replay={} class={}", pid, path, class);
                 let err = String::from_utf8_lossy(&o.stderr).to_string();
-                for l in err.lines().filter(|l| l.contains("MIRI-LEG") || l.contains("Undefined Behavior")).take(4) {
+                for l in err.lines().filter(|l| l.contains("MIRI-LEG") || l.contains("Data race detected")).take(4) {
                     crate::say!("{}", l);
                 }
                 1
